@@ -29,6 +29,7 @@ import (
 	"sync/atomic"
 	"time"
 
+	"github.com/brutella/hc/crypto"
 	"github.com/brutella/hc/hap"
 	"github.com/brutella/hc/verifhook"
 
@@ -103,6 +104,7 @@ func installHook() {
 }
 
 var largeWrites atomic.Int64
+var farRounds atomic.Int64
 
 func payload(writer, seq, bodyLen int, rnd *rand.Rand) []byte {
 	b := make([]byte, 10+bodyLen+4)
@@ -121,6 +123,7 @@ func runRound(seed int64, transport string, writers, writes int, delays bool) ro
 	rnd.Read(secret[:])
 	ctx := hcx.NewContext()
 	var hc *hap.Connection
+	var rawConn net.Conn
 	var captured func() []byte
 	var cleanup func()
 	switch strings.TrimSuffix(transport, "+handover") {
@@ -143,6 +146,7 @@ func runRound(seed int64, transport string, writers, writes int, delays bool) ro
 			return roundResult{Sig: "inconclusive", What: err.Error()}
 		}
 		hc, _ = hcx.ServerConn(c, ctx, secret)
+		rawConn = c
 		captured = func() []byte {
 			c.(*net.TCPConn).CloseWrite()
 			<-done
@@ -156,6 +160,7 @@ func runRound(seed int64, transport string, writers, writes int, delays bool) ro
 			sc.MaxWrite = 100 + rnd.Intn(900)
 		}
 		hc, _ = hcx.ServerConn(sc, ctx, secret)
+		rawConn = sc
 		captured = sc.Written
 		cleanup = func() {}
 	}
@@ -169,6 +174,18 @@ func runRound(seed int64, transport string, writers, writes int, delays bool) ro
 		hc.SetReadDeadline(time.Time{})
 	}
 
+	// every fifth round (without a handover of its own) the session has already sealed almost 2^32 (or 2^40, 2^48) frames:
+	// a counter boundary falls among the first frames, possibly inside one multi-frame message
+	var farStart uint64
+	if !handover && seed%5 == 2 {
+		farStart = uint64(1)<<[]uint{32, 32, 40, 48}[seed/5%4] - uint64(2+seed%37)
+		enc := ctx.GetSessionForConnection(rawConn).Encrypter()
+		c, ok := enc.(crypto.Cryptographer)
+		if !ok || !crypto.VerifSetFrameCounters(c, farStart, 0) {
+			return roundResult{Sig: "inconclusive", What: "the frame counter hook does not apply to the connection's encrypter"}
+		}
+		farRounds.Add(1)
+	}
 	if delays {
 		atomic.StoreInt32(&hookMode, 1)
 	} else {
@@ -247,7 +264,10 @@ func runRound(seed int64, transport string, writers, writes int, delays bool) ro
 	}
 	atomic.StoreInt32(&hookMode, 0)
 	raw := captured()
-	res := checkStream(secret, raw, recs, sent)
+	res := checkStream(secret, raw, recs, sent, farStart)
+	if farStart != 0 && res.Witness != nil {
+		res.Witness["frame_counter_of_the_first_frame"] = fmt.Sprint(farStart)
+	}
 	res.Delays = atomic.LoadInt64(&hookDelay) - d0
 	if res.Witness != nil {
 		res.Witness["transport"] = transport
@@ -266,8 +286,12 @@ var keepAliveMsg = func() []byte {
 	return hap.FixProtocolSpecifier(b.Bytes())
 }()
 
-func checkStream(secret [32]byte, raw []byte, recs [][]writeRec, sent map[[2]int][]byte) roundResult {
+func checkStream(secret [32]byte, raw []byte, recs [][]writeRec, sent map[[2]int][]byte, startCount ...uint64) roundResult {
 	var res roundResult
+	var start uint64 // the counter of the first encrypted frame (0 unless the round placed the session elsewhere)
+	if len(startCount) > 0 {
+		start = startCount[0]
+	}
 	fail := func(sig, what string, w map[string]interface{}) roundResult {
 		res.Sig, res.What, res.Witness = sig, what, w
 		if res.Witness == nil {
@@ -299,14 +323,14 @@ func checkStream(secret [32]byte, raw []byte, recs [][]writeRec, sent map[[2]int
 	}
 	res.Frames = len(frames)
 	var plain []byte
-	fr := &refctl.Framer{Key: a2c}
+	fr := &refctl.Framer{Key: a2c, Count: start}
 	for i, f := range frames {
 		p, _, err := fr.OpenFrame(f)
 		if err != nil {
 			// diagnose: which nonce opens it?
 			at := -1
 			for c := 0; c < len(frames)+4; c++ {
-				t := &refctl.Framer{Key: a2c, Count: uint64(c)}
+				t := &refctl.Framer{Key: a2c, Count: start + uint64(c)}
 				if _, _, e := t.OpenFrame(f); e == nil {
 					at = c
 					break
@@ -456,6 +480,8 @@ func main() {
 	r.Floor("handover rounds released at hook point conn.write.written", int(atomic.LoadInt64(&hookReleases)), rounds/40)
 	r.Count("writes_of_10_to_70_frames", int(largeWrites.Load()))
 	r.Floor("writes_of_10_to_70_frames", int(largeWrites.Load()), 20)
+	r.Count("rounds_that_start_just_below_a_counter_boundary", int(farRounds.Load()))
+	r.Floor("rounds_that_start_just_below_a_counter_boundary", int(farRounds.Load()), 10)
 	r.Floor("keep_alive_messages_between_payloads", int(r.Counter("keep_alive_messages_between_payloads")), rounds)
 	r.Floor("rounds_with_neighbouring_connections", int(r.Counter("rounds_with_neighbouring_connections")), groups*3)
 	r.Floor("rounds_with_overlapping_writes", int(r.Counter("rounds_with_overlapping_writes")), rounds/2)
